@@ -37,6 +37,8 @@ func (f c06Frag) String() string { return fmt.Sprintf("{a:%d b:%d}", f.A, f.B) }
 type c06MergeCase struct {
 	Target c06Frag   `json:"target"`
 	Seq    []c06Frag `json:"seq"`
+	// Backup: the fragments are BACKUP fragments, delivered to the partition's backup owner (R=2)
+	Backup bool `json:"backup,omitempty"`
 }
 
 func c06Sources() []c06Frag {
@@ -64,7 +66,8 @@ func c06MergeCases(tier string) []c06MergeCase {
 	rec = func(seq []c06Frag) {
 		if len(seq) > 0 {
 			for _, t := range targets {
-				out = append(out, c06MergeCase{t, append([]c06Frag{}, seq...)})
+				out = append(out, c06MergeCase{Target: t, Seq: append([]c06Frag{}, seq...)})
+				out = append(out, c06MergeCase{Target: t, Seq: append([]c06Frag{}, seq...), Backup: true})
 			}
 		}
 		if len(seq) == maxLen {
@@ -90,7 +93,7 @@ func c06Entry(key string, code int) storage.Entry {
 }
 
 // exportTable builds a real kvstore table holding the fragment's entries and exports it.
-func c06Export(f c06Frag) []byte {
+func c06Export(f c06Frag, ka, kb string) []byte {
 	c := storage.NewConfig(nil)
 	c.Add("tableSize", uint64(1<<12))
 	c.Add("maxIdleTableTimeout", 15*time.Minute)
@@ -98,10 +101,10 @@ func c06Export(f c06Frag) []byte {
 	child, _ := parent.Fork(nil)
 	st := child.(*kvstore.KVStore)
 	if f.A != 0 {
-		st.Put(partitions.HKey("d", "a"), c06Entry("a", f.A))
+		st.Put(partitions.HKey("d", ka), c06Entry(ka, f.A))
 	}
 	if f.B != 0 {
-		st.Put(partitions.HKey("d", "b"), c06Entry("b", f.B))
+		st.Put(partitions.HKey("d", kb), c06Entry(kb, f.B))
 	}
 	data, _, err := st.TransferIterator().Export()
 	if err != nil {
@@ -112,18 +115,31 @@ func c06Export(f c06Frag) []byte {
 
 func c06RunMerge(cs c06MergeCase) (string, string) {
 	sched.ResetClock()
-	cl := simcluster.New(simcluster.Opts{N: 1, Replicas: 1, Partitions: 1})
+	opts := simcluster.Opts{N: 1, Replicas: 1, Partitions: 1}
+	kind := partitions.PRIMARY
+	if cs.Backup {
+		opts = simcluster.Opts{N: 2, Replicas: 2, WriteQ: 1, ReadQ: 1, Partitions: 3}
+		kind = partitions.BACKUP
+	}
+	cl := simcluster.New(opts)
 	m := cl.Members[0]
+	ka, kb, partID := "a", "b", uint64(0)
+	if cs.Backup {
+		// both keys in one partition, delivered to that partition's backup owner
+		partID = cl.PartID("d", ka)
+		kb = cl.FindKey("b", func(k string) bool { return cl.PartID("d", k) == partID })
+		m = cl.Backups(cl.Live()[0], "d", ka)[0]
+	}
 	svc := m.DB.VerifDMap()
 	if cs.Target.A != 0 {
-		svc.VerifInject(partitions.PRIMARY, "d", partitions.HKey("d", "a"), c06Entry("a", cs.Target.A))
+		svc.VerifInject(kind, "d", partitions.HKey("d", ka), c06Entry(ka, cs.Target.A))
 	}
 	if cs.Target.B != 0 {
-		svc.VerifInject(partitions.PRIMARY, "d", partitions.HKey("d", "b"), c06Entry("b", cs.Target.B))
+		svc.VerifInject(kind, "d", partitions.HKey("d", kb), c06Entry(kb, cs.Target.B))
 	}
 	bestA, bestB := c06TS[cs.Target.A], c06TS[cs.Target.B]
 	for i, src := range cs.Seq {
-		payload, err := dmap.VerifPackFragment(0, partitions.PRIMARY, "d", c06Export(src))
+		payload, err := dmap.VerifPackFragment(partID, kind, "d", c06Export(src, ka, kb))
 		if err != nil {
 			panic(err)
 		}
@@ -153,7 +169,7 @@ func c06RunMerge(cs c06MergeCase) (string, string) {
 		for _, kb := range []struct {
 			k    string
 			best int64
-		}{{"a", bestA}, {"b", bestB}} {
+		}{{ka, bestA}, {kb, bestB}} {
 			cps := cl.Copies("d", kb.k)
 			switch {
 			case kb.best == 0 && len(cps) != 0:
@@ -393,6 +409,9 @@ func init() {
 		var r c06Res
 		for _, cs := range p.Merge {
 			k, w := c06RunMerge(cs)
+			if k != "" && cs.Backup {
+				k += "/backup-fragment"
+			}
 			r.Keys, r.Whats = append(r.Keys, k), append(r.Whats, w)
 		}
 		for _, cs := range p.Read {
